@@ -4,7 +4,7 @@
 From Coq Require Import ZArith List Bool Permutation.
 From Model Require Import PyBase Graph Reactor ReactorStage ReactorQueue ReactorPrepared Stereo.
 From Gen Require Import ReactorShape ReactorBody.
-From Proofs Require Import ReactorShapeProofs ReactorProofs ReactorExt ReactorEquiv ReactorCompose StereoProofs ReactorStereo ReactorStereo2 ReactorQueueProofs ReactorQueueComplete ReactorStageEquiv ReactorStates ReactorPreparedProofs ReactorBodyTie.
+From Proofs Require Import ReactorShapeProofs ReactorProofs ReactorExt ReactorEquiv ReactorCompose StereoProofs ReactorStereo ReactorStereo2 ReactorQueueProofs ReactorQueueComplete ReactorStageEquiv ReactorStates ReactorPreparedProofs ReactorBodyTie ReactorBodyTie2 ReactorBodyTie3 ReactorBodyTie4 ReactorBodyTie5.
 Import ListNotations.
 Open Scope Z_scope.
 
@@ -755,3 +755,179 @@ Theorem C16_translated_get_deleted_on_witnesses :
   g_get_deleted (fuel_walk wit_g) [77] wit_g wit_mapping = Err KeyError.
 Proof. exact g_get_deleted_on_witnesses. Qed.
 Print Assumptions C16_translated_get_deleted_on_witnesses.
+
+(* Gen.ReactorBody.g_patcher_keep = the text of BaseReactor._patcher from `patched_atoms = set(new)` to the end of
+   `for n, bs in sbonds.items()`, translated statement by statement on every run: the two loops that copy the atoms the
+   template does not name and the bonds that survive (the frame condition of the property), stereo bookkeeping included. *)
+(* for ALL inputs it computes what the last two folds of the hand-written patcher compute: same adjacency, same exception,
+   same atoms up to the stereo label (which Model.Reactor does not carry) *)
+Theorem C16_translated_patcher_keep_is_model : forall satoms sbonds del tetra natoms nbonds sts stb,
+  let kept := fold_left (keep_atom (keys natoms) del) satoms (natoms, nbonds) in
+  match g_patcher_keep satoms sbonds del tetra natoms nbonds sts stb with
+  | Ok (natoms', nbonds', _, _) =>
+      erase_stereo natoms' = erase_stereo (fst kept) /\
+      fold_res (keep_bonds_of (keys natoms) del) sbonds (snd kept) = Ok nbonds'
+  | Err e => fold_res (keep_bonds_of (keys natoms) del) sbonds (snd kept) = Err e
+  end.
+Proof. exact g_patcher_keep_is_model. Qed.
+Print Assumptions C16_translated_patcher_keep_is_model.
+
+(* hence Model.Reactor.patcher - the function every C16_patcher_* theorem is about - IS its first two folds followed by the
+   translated source text, whatever the tetrahedron registry and the stereo work lists hold *)
+Theorem C16_patcher_runs_translated_loops : forall g mapping tpl del tetra sts stb,
+  patcher g mapping tpl del =
+  match zmax_list (ids g) with
+  | None => Err ValueError
+  | Some mx =>
+      match fold_res (patch_atom g) (t_atoms tpl) (mkP [] [] mapping mx) with
+      | Err e => Err e
+      | Ok s =>
+          match fold_res (patch_bonds_of (p_map s)) (t_bonds tpl) (p_adj s) with
+          | Err e => Err e
+          | Ok adj2 =>
+              match g_patcher_keep (m_atoms g) (m_adj g) del tetra (p_atoms s) adj2 sts stb with
+              | Err e => Err e
+              | Ok (atoms', adj', _, _) => Ok (mkMol (erase_stereo atoms') adj', p_map s)
+              end
+          end
+      end
+  end.
+Proof. exact patcher_runs_translated_loops. Qed.
+Print Assumptions C16_patcher_runs_translated_loops.
+
+(* "for tetrahedrons label can be stored as is": the label the translated loop leaves on an atom the template does not
+   name and that is not deleted is Model.ReactorStage.untouched_label (so far a hand-written definition tied by testing;
+   C16_untouched_centre_same_configuration says that this label denotes the same configuration) *)
+Theorem C16_translated_untouched_label : forall g sbonds del tetra natoms nbonds sts stb natoms' nbonds' sts' stb' n,
+  g_patcher_keep (m_atoms g) sbonds del tetra natoms nbonds sts stb = Ok (natoms', nbonds', sts', stb') ->
+  NoDup (ids g) -> In n (ids g) -> ~ In n (keys natoms) -> ~ In n del ->
+  option_map a_stereo (zget natoms' n) = Some (untouched_label tetra g n).
+Proof. exact g_patcher_keep_untouched_label. Qed.
+Print Assumptions C16_translated_untouched_label.
+
+Theorem C16_translated_patcher_keep_example :
+  g_patcher_keep ex_satoms ex_sbonds [4] [2] [(1, mkAtom 6 None 1 false None None)] [(1, [])] [] [] =
+    Ok ([(1, mkAtom 6 None 1 false None None); (2, mkAtom 6 None 0 false (Some 1) (Some true)); (3, mkAtom 8 None 0 false (Some 0) None)],
+        [(1, [(2, mkBond 1 None)]); (2, [(1, mkBond 1 None); (3, mkBond 2 None)]); (3, [(2, mkBond 2 None)])],
+        [3], [(2, 3)]) /\
+  g_patcher_keep ex_satoms ex_sbonds [3; 4] [2] [(1, mkAtom 6 None 1 false None None)] [] [] [] = Err KeyError.
+Proof. exact g_patcher_keep_example. Qed.
+Print Assumptions C16_translated_patcher_keep_example.
+
+(* Gen.ReactorBody.g_patcher_atoms = the loop `for n, ra in self._replacement.atoms()` of _patcher (which atom a replacement
+   atom becomes: any-atom reuse keeping element and isotope, re-typed matched atoms, new atoms numbered above the maximum,
+   requested charge / radical state, hydrogen counts and labels taken from the patch for new atoms only, ValueError for an
+   any-atom without image), translated statement by statement on every run.  For ALL inputs it agrees with the first fold of
+   the hand-written patcher (fold_res patch_atom over the replacement read through conv): same exception, same adjacency,
+   mapping and maximum, same atoms up to the stereo label *)
+Theorem C16_translated_patcher_atoms_is_model : forall g ratoms natoms nbonds mapping mx sts,
+  agrees (g_patcher_atoms ratoms (m_atoms g) natoms nbonds mapping mx sts)
+         (fold_res (patch_atom g) (conv_atoms ratoms) (mkP natoms nbonds mapping mx)).
+Proof. exact g_patcher_atoms_is_model. Qed.
+Print Assumptions C16_translated_patcher_atoms_is_model.
+
+(* the whole structural _patcher of the C16_patcher_* theorems, expressed through the translated source text: max(satoms),
+   the translated loop over the replacement atoms, the loop over the replacement bonds (still hand-written), the translated
+   loops over the atoms and bonds of the structure *)
+Theorem C16_patcher_runs_translated_text : forall g mapping ratoms tb del tetra sts0 stb,
+  patcher g mapping (mkTpl (conv_atoms ratoms) tb) del =
+  match zmax_list (ids g) with
+  | None => Err ValueError
+  | Some mx =>
+      match g_patcher_atoms ratoms (m_atoms g) [] [] mapping mx sts0 with
+      | Err e => Err e
+      | Ok (na, nb, mp, _, sts) =>
+          match fold_res (patch_bonds_of mp) tb nb with
+          | Err e => Err e
+          | Ok adj2 =>
+              match g_patcher_keep (m_atoms g) (m_adj g) del tetra na adj2 sts stb with
+              | Err e => Err e
+              | Ok (atoms', adj', _, _) => Ok (mkMol (erase_stereo atoms') adj', mp)
+              end
+          end
+      end
+  end.
+Proof. exact patcher_runs_translated_text. Qed.
+Print Assumptions C16_patcher_runs_translated_text.
+
+Theorem C16_translated_patcher_atoms_example :
+  g_patcher_atoms ex_ratoms ex_cco [] [] [(2, 5)] 5 [] =
+    Ok ([(5, mkAtom 8 None (-1) false None (Some true)); (6, mkAtom 11 None 1 false (Some 0) None); (7, mkAtom 7 (Some 15) 0 false (Some 2) None)],
+        [(5, []); (6, []); (7, [])], [(2, 5); (3, 6); (4, 7)], 7, []) /\
+  g_patcher_atoms ex_ratoms ex_cco [] [] [(2, 9)] 5 [] = Err KeyError /\
+  g_patcher_atoms ex_ratoms ex_cco [] [] [] 5 [] = Err ValueError.
+Proof. exact g_patcher_atoms_example. Qed.
+Print Assumptions C16_translated_patcher_atoms_example.
+
+(* the translated loop, one replacement atom at a time, labels and hydrogen counts included (Model.Reactor carries no labels,
+   so these two say what the hand model could not): a replacement atom WITH an image *)
+Theorem C16_translated_patcher_atoms_reused : forall n ra satoms natoms nbonds mapping mx sts m sa,
+  truthy_get mapping n = Some m -> zget satoms m = Some sa ->
+  exists a, g_patcher_atoms [(n, ra)] satoms natoms nbonds mapping mx sts =
+              Ok (zset natoms m a, zset nbonds m [], mapping, mx,
+                  if py_is_some (r_stereo ra) then sts else if py_is_some (a_stereo sa) then sts ++ [m] else sts) /\
+            a_stereo a = r_stereo ra /\ a_h a = None /\ a_chg a = r_chg ra /\ a_rad a = r_rad ra /\
+            (if is_kind KAny ra then a_num a = a_num sa /\ a_iso a = a_iso sa else a_num a = r_num ra /\ a_iso a = r_iso ra).
+Proof. exact g_patcher_atoms_reused. Qed.
+Print Assumptions C16_translated_patcher_atoms_reused.
+
+(* ... and WITHOUT an image: ValueError for an any-atom, otherwise a new atom max_atom + 1 with everything taken from the patch *)
+Theorem C16_translated_patcher_atoms_new : forall n ra satoms natoms nbonds mapping mx sts,
+  truthy_get mapping n = None ->
+  if is_kind KAny ra then g_patcher_atoms [(n, ra)] satoms natoms nbonds mapping mx sts = Err ValueError
+  else g_patcher_atoms [(n, ra)] satoms natoms nbonds mapping mx sts =
+         Ok (zset natoms (mx + 1) (mkAtom (r_num ra) (r_iso ra) (r_chg ra) (r_rad ra)
+                                          (if is_kind KElement ra then r_h ra else hd_error (r_hs ra)) (r_stereo ra)),
+             zset nbonds (mx + 1) [], zset mapping n (mx + 1), mx + 1, sts).
+Proof. exact g_patcher_atoms_new. Qed.
+Print Assumptions C16_translated_patcher_atoms_new.
+
+(* Gen.ReactorBody.g_patcher_rbonds = the loop `for n, bs in self._replacement._bonds.items()` of _patcher (bonds the
+   replacement names: order of the patch, back-links share the bond object, label of the patch, or a stereo_bonds entry when
+   the structure has a labelled bond of the same order between the same atoms), translated statement by statement on every
+   run.  For ALL inputs, from adjacencies that are equal up to bond labels, it agrees with the second fold of the
+   hand-written patcher: same exception, same adjacency up to the labels *)
+Theorem C16_translated_patcher_rbonds_is_model : forall tb sbonds mapping ag ah stb,
+  erase_adj ag = erase_adj ah ->
+  agrees_adj (g_patcher_rbonds tb sbonds mapping ag stb) (fold_res (patch_bonds_of mapping) tb ah).
+Proof. exact g_patcher_rbonds_is_model. Qed.
+Print Assumptions C16_translated_patcher_rbonds_is_model.
+
+(* THE WHOLE STRUCTURAL _patcher IS TRANSLATED TEXT: Model.Reactor.patcher - the function every C16_patcher_* theorem above is
+   about - equals max(satoms) followed by the four translated loops of base.py lines 89-169, read without the stereo labels the
+   hand model does not carry; for every replacement (read through conv), mapping, to-delete set, tetrahedron registry and
+   initial work lists.  No statement of these lines is hand-copied any more: an edit that changes what they compute changes
+   the generated terms and breaks this theorem (or one of the four C16_translated_*_is_model lemmas it rests on) *)
+Theorem C16_patcher_is_translated_text : forall g mapping ratoms tb del tetra sts0 stb0,
+  patcher g mapping (mkTpl (conv_atoms ratoms) tb) del =
+  match zmax_list (ids g) with
+  | None => Err ValueError
+  | Some mx =>
+      match g_patcher_atoms ratoms (m_atoms g) [] [] mapping mx sts0 with
+      | Err e => Err e
+      | Ok (na, nb, mp, _, sts) =>
+          match g_patcher_rbonds tb (m_adj g) mp nb stb0 with
+          | Err e => Err e
+          | Ok (adj2, stb) =>
+              match g_patcher_keep (m_atoms g) (m_adj g) del tetra na adj2 sts stb with
+              | Err e => Err e
+              | Ok (atoms', adj', _, _) => Ok (mkMol (erase_stereo atoms') (erase_adj adj'), mp)
+              end
+          end
+      end
+  end.
+Proof. exact patcher_is_translated_text. Qed.
+Print Assumptions C16_patcher_is_translated_text.
+
+Theorem C16_translated_patcher_rbonds_example :
+  g_patcher_rbonds [(1, [(2, mkBond 2 (Some true))]); (2, [(1, mkBond 2 (Some true))])] [] [(1, 5); (2, 6)] [(5, []); (6, [])] [] =
+    Ok ([(5, [(6, mkBond 2 (Some true))]); (6, [(5, mkBond 2 (Some true))])], []) /\
+  g_patcher_rbonds [(1, [(2, mkBond 2 None)]); (2, [(1, mkBond 2 None)])]
+                   [(5, [(6, mkBond 2 (Some false))]); (6, [(5, mkBond 2 (Some false))])] [(1, 5); (2, 6)] [(5, []); (6, [])] [] =
+    Ok ([(5, [(6, mkBond 2 None)]); (6, [(5, mkBond 2 None)])], [(5, 6)]) /\
+  g_patcher_rbonds [(1, [(2, mkBond 2 None)]); (2, [(1, mkBond 2 None)])]
+                   [(5, [(6, mkBond 1 (Some false))]); (6, [(5, mkBond 1 (Some false))])] [(1, 5); (2, 6)] [(5, []); (6, [])] [] =
+    Ok ([(5, [(6, mkBond 2 None)]); (6, [(5, mkBond 2 None)])], []) /\
+  g_patcher_rbonds [(1, [(2, mkBond 2 None)])] [] [(1, 5)] [(5, [])] [] = Err KeyError.
+Proof. exact g_patcher_rbonds_example. Qed.
+Print Assumptions C16_translated_patcher_rbonds_example.
